@@ -431,6 +431,12 @@ impl Scenario for VaultScn {
         let r = &self.roots[root];
         let h = deploy_vault(r, w);
         if r.first > 0 {
+            if r.first > BIG_FUND / 2 {
+                // (roots larger than the users' standing funds: the first depositor is given the amount on top)
+                fund(w, &h.asset, ALICE, r.first);
+                // (and the borrower can afford the fees of loans of that size)
+                fund(w, &h.asset, &h.adversary, r.first / 16);
+            }
             vault_deposit(w, &h, ALICE, r.first).unwrap_or_else(|e| panic!("first deposit {:?}", e));
             if r.pre_loan {
                 direct_loan(w, &h, &r.fees, r.first / 2, &[Step::Repay(RepayKind::Exact)]).unwrap_or_else(|e| panic!("pre loan {:?}", e));
@@ -481,6 +487,10 @@ impl Scenario for VaultScn {
             let mut a = vec![1u128];
             for t in [1u128, 500, 999, 1000, 1001, 1_000_000] {
                 a.push((b(t) * b(ONE18) / b(f.protocol.max(1))).low_u128().max(1));
+            }
+            // (vaults on the scale of 18-decimals assets: a loan of a third of the balance, whose fees exceed 2^64)
+            if bal >= 10u128.pow(20) {
+                a.push(bal / 3);
             }
             a.retain(|x| *x <= bal);
             a
@@ -541,6 +551,9 @@ impl Scenario for VaultScn {
                 for k in ["underfunded", "lookalike_denom", "two_coins"] {
                     v.push(VAct::BadDeposit { user: MALLORY.to_string(), kind: k.to_string() });
                 }
+            } else {
+                // cw20 vault: a deposit "paid" with bank coins spelled like the token's contract address, no allowance
+                v.push(VAct::BadDeposit { user: MALLORY.to_string(), kind: "addr_coin".to_string() });
             }
         }
         for i in 0..self.fee_alphabet.len() {
@@ -621,6 +634,9 @@ impl Scenario for VaultScn {
             VAct::Loan { amount, script } => {
                 let amount: u128 = amount.parse().unwrap();
                 let f = current_fees(w, h);
+                // (precondition of "repaying exactly the quoted amount suffices": the borrower owns the fees)
+                let borrower_funds = info_balance(w, &h.asset, &h.adversary);
+                let fees_due = fee_of(f.protocol, amount).saturating_add(fee_of(f.swap, amount)).saturating_add(fee_of(f.burn, amount));
                 let r = direct_loan(w, h, &f, amount, script);
                 let post = observe(w, h);
                 if r.is_ok() {
@@ -648,7 +664,9 @@ impl Scenario for VaultScn {
                 } else {
                     cx.count("loan:reverted");
                 }
-                if script == &[Step::Repay(RepayKind::Exact)] {
+                if script == &[Step::Repay(RepayKind::Exact)] && borrower_funds < fees_due {
+                    cx.count("loan:borrower_cannot_afford_the_fees");
+                } else if script == &[Step::Repay(RepayKind::Exact)] {
                     cx.check("loan.exact_payback_suffices", r.is_ok(), || format!("loan {} repaid with exactly the quoted amount was rejected: {}", amount, r.as_ref().err().map(|e| e.msg().to_string()).unwrap_or_default()));
                 }
                 if script == &[Step::Repay(RepayKind::Minus1)] {
@@ -696,6 +714,27 @@ impl Scenario for VaultScn {
                 }
             }
             VAct::BadDeposit { user, kind } => {
+                if let AssetInfo::Token { contract_addr } = &h.asset {
+                    let declared = 1000u128;
+                    w.mint_native(user, declared, contract_addr);
+                    let ub = w.cw20_balance(contract_addr, user);
+                    let lpb = w.cw20_balance(&h.lp, user);
+                    let r = w.exec(user, &h.vault, &VaultExec::Deposit { amount: Uint128::new(declared) }, &[coin(declared, contract_addr)]);
+                    match &r {
+                        Ok(_) => {
+                            cx.count("bad_deposit:accepted");
+                            let paid = ub - w.cw20_balance(contract_addr, user);
+                            cx.check("deposit.user_paid_exactly", paid == declared, || {
+                                format!("deposit declaring {} paid with bank coins spelled like the token's address was accepted: user paid {} tokens, shares +{}", declared, paid, w.cw20_balance(&h.lp, user) - lpb)
+                            });
+                        }
+                        Err(_) => {
+                            cx.count("bad_deposit:rejected");
+                            // (the coins minted for the attempt are burnt again so that the state is unchanged)
+                            let _ = w.exec_cosmos(user, cosmwasm_std::BankMsg::Burn { amount: vec![coin(declared, contract_addr)] }.into());
+                        }
+                    }
+                }
                 if let AssetInfo::NativeToken { denom } = &h.asset {
                     let declared = 1000u128;
                     let upper = denom.to_uppercase();
